@@ -129,6 +129,7 @@ static struct {
 	/* file system */
 	char           fsRoot[1024]; size_t fsRootLen;
 	struct { int kind, cls; long a, b; int nth, fired; } ff[MAXSMALL]; int nFf;	/* nth: only the nth file of the class opened for writing (0 = any) */
+	int            inodeMode;	/* 0 real, 1 low 16 bits collide, 2 low 8 bits collide, 3 huge sequential */
 	/* memory supply */
 	struct { unsigned long call, n; } refuse[MAXSMALL]; int nRefuse;
 	struct { unsigned long call, pages; } foreign[MAXSMALL]; int nForeign;
@@ -257,7 +258,11 @@ static void planLoad(void)
 		}
 		else if (!strcmp(w[0], "pid")) P.pid = (int) L(1);
 		else if (!strcmp(w[0], "fs")) {
-			if (!strcmp(w[1], "root")) {
+			if (!strcmp(w[1], "inodes")) {
+				P.inodeMode = !strcmp(w[2], "collide16") ? 1 : !strcmp(w[2], "collide8") ? 2 :
+					      !strcmp(w[2], "huge") ? 3 : 0;
+			}
+			else if (!strcmp(w[1], "root")) {
 				strncpy(P.fsRoot, w[2], sizeof P.fsRoot - 2);
 				P.fsRootLen = strlen(P.fsRoot);
 				while (P.fsRootLen > 1 && P.fsRoot[P.fsRootLen - 1] == '/') P.fsRoot[--P.fsRootLen] = 0;
@@ -785,6 +790,32 @@ int __wrap_mkdir(const char *path, mode_t mode)
 		return r;
 	}
 	return __real_mkdir(path, mode);
+}
+
+/* File identity.  The inode number a file system hands out is not input: any set of
+ * distinct numbers is legal.  For files in the sandbox the plan chooses the numbering
+ * (distinct per path, but e.g. all agreeing in their low 16 bits, or all above 2^40). */
+extern int __real_stat(const char *path, struct stat *buf);
+
+int __wrap_stat(const char *path, struct stat *buf)
+{
+	char abs[2048];
+	int r;
+	planLoad();
+	r = __real_stat(path, buf);
+	if (r == 0 && P.inodeMode && inSandbox(path, abs, sizeof abs)) {
+		static char seen[256][256]; static int nseen;
+		int i;
+		for (i = 0; i < nseen; i++) if (!strcmp(seen[i], abs)) break;
+		if (i == nseen && nseen < 256 && strlen(abs) < 256) strcpy(seen[nseen++], abs);
+		if (i < 256) {
+			unsigned long k = (unsigned long) i + 1;	/* distinct per path */
+			if (P.inodeMode == 1) buf->st_ino = (k << 16) | 0x1234;
+			else if (P.inodeMode == 2) buf->st_ino = (k << 8) | 0x12;
+			else buf->st_ino = (1UL << 40) + (k << 20);
+		}
+	}
+	return r;
 }
 
 /* ---- stdin transport ---------------------------------------------------- */
